@@ -236,7 +236,7 @@ Definition violations (cs : list case) : list (N * N) :=
 
 Definition cmd_arg (c : cmd) : bytes :=
   match c with
-  | CCwd p | CMkd p | CRmd p | CDele p | CRnfr p | CRnto p | CStor p _ | CRetr p
+  | CCwd p | CMkd p | CRmd p | CDele p | CRnfr p | CRnto p | CStor p _ | CStorAbort p _ | CListNoData p | CRetr p
   | CList p | CNlst p | CMdtm p | CSize p => p
   | CCdup => DOTDOT
   | _ => []
